@@ -15,14 +15,14 @@
 //   /mode    rParamI  0..2     default 0, depends on /preset (a preset message resets it); changing it re-initialises /dep2 and /chain
 //   /dep2    rParamI  0..100   default depends on /preset: 1, 2, 3; depends on /mode
 //   /chain   rParamI  0..100   default 0; depends on /mode (and through it on /preset)
-//   /tg      rToggle  default false; changing it re-initialises /dep3
+//   /tg      rToggle  default false; changing it (a toggle runs its callback only on a change) re-initialises /dep3
 //   /dep3    rParamI  0..100   default depends on /preset: 5, 6, 7; depends on /tg (two independent dependencies)
 //   /ai#3    rArrayI  0..100                  default 3 (all elements, written [3x3])
 //   /af#3    rArrayF  -0.5..0.75              default 0.25
 //   /at#2    rArrayT                          default false
 //   /al#8    rArrayI  0..100                  default 0 (written [8x0])
 //   /fx_on   rToggle  default false
-//   /fx/     rRecurp  (allocated by fx_on) enabled by fx_on:  gain rParamI 0..10 default 3,  voice#2/ rRecurs: vol rParamI 0..127 default 64
+//   /fx/     rRecurp  (allocated by fx_on) enabled by fx_on:  gain rParamI 0..10 default 3, level rParamI 0..100 default depends on type: 11 22 33, type rParamI 0..2 (re-initialises level),  voice#2/ rRecurs: vol rParamI 0..127 default 64
 //   /sub_on  rToggle                          default true
 //   /sub/    rRecur   enabled by sub_on:   si rParamI 0..50 default 7,  sf rParamF -4..4 default 1.5, st rToggle default false, sa#2 rArrayI 0..100 default [4 4]
 //   /subs#2/ rRecurs  (same Sub ports)
@@ -36,7 +36,7 @@
 namespace app1 {
 struct Sub { int si = 7; float sf = 1.5f; bool st = false; char sa[2] = {4, 4}; static const rtosc::Ports ports; };
 struct Voice { int vol = 64; static const rtosc::Ports ports; };
-struct Fx { int gain = 3; Voice voice[2]; static const rtosc::Ports ports; };
+struct Fx { int gain = 3; int level = 11; int type = 0; Voice voice[2]; void type_changed() { static const int l[3] = {11, 22, 33}; level = l[type < 0 ? 0 : type > 2 ? 2 : type]; } static const rtosc::Ports ports; };
 struct App {
     char pc = 64; int pi = 5; int pn = 0; float pf = 0.5f; float pg = 1.0f; bool pt = false; int po = 1; char ps[8];
     int preset = 0; int dep = 10; int mode = 0; int dep2 = 1; int chain = 0; bool tg = false; int dep3 = 5; char al[8]; bool fx_on = false; Fx *fx = nullptr; char ai[3]; float af[3]; bool at[2];
@@ -65,7 +65,15 @@ inline const rtosc::Ports Sub::ports = {
 inline const rtosc::Ports Voice::ports = { rParamI(vol, rLinear(0, 127), rDefault(64), "voice volume") };
 #undef rObject
 #define rObject Fx
-inline const rtosc::Ports Fx::ports = { rParamI(gain, rLinear(0, 10), rDefault(3), "fx gain"), rRecurs(voice, 2, "voices: an enumerated sub-tree BELOW a sub-tree that can be disabled") };
+inline const rtosc::Ports Fx::ports = { rParamI(gain, rLinear(0, 10), rDefault(3), "fx gain"),
+    // a dependency INSIDE a sub-tree, the dependant declared (and therefore saved) before the port it depends on; with fx_on above them: a chain
+    rParamI(level, rLinear(0, 100), rDefaultDepends(type), rPresets(11, 22, 33), "fx level: default depends on the sibling 'type'"),
+#undef rChangeCb
+#define rChangeCb obj->type_changed();
+    rParamI(type, rLinear(0, 2), rDefault(0), "fx type (re-initialises level)"),
+#undef rChangeCb
+#define rChangeCb
+    rRecurs(voice, 2, "voices: an enumerated sub-tree BELOW a sub-tree that can be disabled") };
 #undef rObject
 #define rObject App
 inline const rtosc::Ports App::ports = {
